@@ -39,6 +39,10 @@ func gramSchmidt(a, q, r Matrix, t ScalarType, n, m int) (Matrix, Matrix, error)
   for i := 0; i < m; i++ {
     // r_ii = ||v_i||
     r.At(i, i).Vnorm(v.ConstCol(i))
+    // r might be a recycled matrix, clear lower triangular part
+    for k := i+1; k < n; k++ {
+      r.At(k, i).SetFloat64(0.0)
+    }
     for k := 0; k < n; k++ {
       q.At(k, i).Div(v.ConstAt(k, i), r.ConstAt(i, i))
     }
